@@ -2,6 +2,7 @@ H("c06_conservation", "C06", "seq", ["harness/c06_conservation.cc"], sdk=["commo
   cxxflags=["-fno-access-control"],
   args={"quick": [], "thorough": []},
   what="real MeterProvider/Meter/SyncMetricStorage/TemporalMetricStorage with 1..3 pull readers of mixed temporality, 0..2 views and up to 2 handles of one "
-       "counter / double counter / up-down counter: every history of Create(same name) / Add(handle,value,attrs) / Collect(reader) up to the depth bound, each "
-       "collection compared with a per-reader, per-stream reference model (pending delta, running total, interval bounds)",
+       "counter / double counter / up-down counter / double up-down counter: every history of Create(same name) / Add(handle,value,attrs; all four overloads) / Collect(reader) up to the depth bound, each "
+       "collection compared with a per-reader, per-stream reference model (pending delta, running total, interval bounds); extension parts: MetricFilter on a reader, reader registered late, "
+       "second meter, handles destroyed, instruments of a meter that outlived its provider",
   design_ref="5/C06")
